@@ -144,6 +144,8 @@ class ExprMixin:
                 strs.append(v.t)
         ints = ints[:6]
         strs = strs[:5]
+        for t in self.extra_inst_terms:
+            (ints if t.sort() == z3.IntSort() else strs if t.sort() == z3.StringSort() else []).append(t)
         for s in skolems:
             if s.sort() == z3.IntSort():
                 ints.append(s)
